@@ -13,6 +13,10 @@ fn main() {
     if args.len() < 3 {
         usage();
     }
+    if args[1] == "--corpus-check" {
+        // --corpus-check <ID> <corpus root or one configuration directory>
+        std::process::exit(vpcheck::corpus::corpus_main(&args[2], Path::new(&args[3])));
+    }
     if args[1] == "--corpus" {
         // --corpus <dir> <count>: well-formed inputs for the `sections` fuzz target
         let dir = Path::new(&args[2]);
